@@ -76,6 +76,7 @@ func runC04(c *core.Ctx) {
 	c.Floor("R04c", 2, "filter-failed edge of both wrap-up functions")
 	c.Floor("R04d", 2, "Read of both stream readers")
 	c.Floor("R04e", 11, "6 functions on the Read chains + 5 wrap-up call sites")
+	c04OuterMostOnly(c)
 }
 
 // ---------------------------------------------------------------- R04a
